@@ -8,6 +8,11 @@ CLAIMED = {
    text="Seeded search over writer histories (writer kind x option swarm x Write/Flush batching) executed on simulated storage; every row read back through five read paths is compared with the model (the slice handed to the writer). Sampling of histories/configurations, not a proof; the value dimension is seeded generation over four Go struct types.",
    note="Trusts Schema.Deconstruct only as a convenience for row-level comparison (typed values are also compared directly). Library built by go1.26.8 with tags verif,debug (deterministic pool replaces sync.Pool).",
    ref="DESIGN.md §4 C01"),
+ "C08": dict(level="exploration", engine="E1 storage-sim (+E3 scheduler for async mode)",
+   technique="deterministic simulation: seeded seek/read histories on eight reader kinds over simulated storage, checked operation by operation against a cursor reference model; tape shrinking + replay",
+   text="Seeded search over files (option swarm) and histories of SeekToRow/ReadRows/ReadPage/ReadValues/OffsetIndex operations; after every operation the rows or values returned must be exactly model[cursor:cursor+m], io.EOF only at the end, progress within 8 calls. Sampling of histories and configurations.",
+   note="Seek targets within [0, NumRows]; forward-only readers are not given backward seeks; zero-length ReadValues is not exercised.",
+   ref="DESIGN.md §4 C08"),
  "C13": dict(level="fault_enumeration", engine="E2 fault enumerator",
    technique="deterministic simulation with stored-byte fault injection: page bodies located from raw bytes, every sampled (byte, bit/burst) x access path re-executed on a simulated ReaderAt, oracle = ErrCorrupted and no wrong row",
    text="For each seeded file the harness enumerates bit flips and short bursts inside page bodies (data and dictionary pages) and drives eight access paths (sequential rows, Reader, typed reader, pages, seek into the page, seek past and back, ReadDictionary, value reader) until error/EOF; a path that needs the page must end with an error satisfying errors.Is(err, ErrCorrupted), deliver no wrong row and not panic. Positions are enumerated per sampled file (quick: sampled bytes, thorough: more bytes x all 8 bits); files are sampled.",
